@@ -265,7 +265,8 @@ def analyses(tier):
             return None
         if hasattr(r, "columns"):
             return ("frame", int((r != 0).any(axis=1).sum() >= 0), len(r.columns))
-        return ("series", num(r.sum()) if not kw.get("minimize_components") else int(len(r)))
+        # uniquely defined: the minimised total import (exports are not part of the objective), resp. the number of components
+        return ("series", num(r[r > 0].sum()) if not kw.get("minimize_components") else int((r > 0).sum()))
     A["minimal_medium:lp"] = lambda m, ref: mm(m, min_objective_value=0.1)
     A["minimal_medium:lp,exports,open"] = lambda m, ref: mm(m, min_objective_value=0.5, exports=True, open_exchanges=True)
     A["minimal_medium:unreachable"] = lambda m, ref: mm(m, min_objective_value=1e9)
@@ -363,7 +364,7 @@ def pending_changes(model):
     """the user's pending changes inside the context: a bound change and a gene knock-out (both plainly undoable)"""
     r = model.reactions[-1]
     ub = r.upper_bound
-    r.upper_bound = ub * 0.5 if 0 < ub < INF else ub
+    r.upper_bound = max(r.lower_bound, ub * 0.5) if 0 < ub < INF else ub
     if model.genes:
         model.genes[-1].knock_out()
 
